@@ -105,7 +105,7 @@ def add_hostile(rng, pr, sc_root):
         opts.append(lambda: mk(os.path.join(pkg, "%s.task.%d" % (name, r0[1] + 100000))))
     for f in rng.sample(opts, rng.randint(3, len(opts))):
         f()
-    if rng.random() < 0.25 and shutil.which("setpriv"):
+    if rng.random() < 0.25 and cli.unprivileged_available():
         # an unrecorded experiment output that contains a read-only sub-directory (tools that protect their results,
         # copied-in caches): deleting it takes more than unlink - gc then runs WITHOUT root's permission override
         d = os.path.join(out, "a", "protected.task.31")
